@@ -3,9 +3,31 @@ PROP = {'engine': 'c07',
  'race': False,
  'level': 'exploration',
  'crash_is_violation': True,
- 'technique': 'online monitor at the journal\'s client boundary (shadow of whole-state observations at every Snapshot, compared after every '
-              'RevertToSnapshot; direct driver and proxy under the real EVM) + differential redo of published change logs vs execution',
- 'rule': 'TODO',
- 'assumptions': [],
+ 'technique': "online monitor at the journal's client boundary (shadow of whole-state observations taken at every Snapshot and compared after "
+              'every RevertToSnapshot: direct driver over every SafeAccount setter, and a proxy at the vm.AccountManager interface under the real '
+              'EVM) + Finalise-after-full-revert vs never-applied control + fresh-manager view after discard + differential redo '
+              '(Manager.RebuildAll of the published change logs on the parent vs the executed, saved state)',
+ 'rule': 'monitor 1: seeded sequences of 40..80 operations over 6 accounts of a mined base chain (two contracts with committed code/storage, one '
+         'holding an asset id and an equity; asset issuer; equity holder; registered candidate; untouched address), 4 storage keys, 2 asset '
+         'codes, 4 asset/equity ids: every SafeAccount setter (balance, storage incl. nil/empty/zero-padded values, code, self-destruct, voteFor, '
+         'votes, candidate, candidate state, signers, asset code, total supply, asset-code state, asset id, equity, event) interleaved with '
+         'Snapshot/RevertToSnapshot of live revisions at nesting up to 9, setters restricted to calls the system can issue (code only where '
+         'evm.Create would; self-destruct/storage only on contracts; asset, candidate, vote and signer writes only on externally owned accounts; '
+         'asset-state writes only on existing assets; single profile keys only on registered candidates); 70% of the sequences are free of '
+         'self-destructs because the known self-destruct finding ends the judged part of a sequence; every sequence ends with revert to the '
+         'outermost snapshot, one balance change per account and Finalise, compared with a control that never applied anything; afterwards a '
+         'fresh manager at the same parent must observe the pristine state; witnesses are shrunk by greedy removal. monitor 2: the fixed '
+         'regression programs plus generated template / nested CALL-CALLCODE-DELEGATECALL-STATICCALL compositions, asset transfers into '
+         'contracts, grammar programs and precompile calls run by the real EVM through the shadowing proxy. monitor 3: every block of '
+         'scn.Cluster scenarios (all 11 tx types, random bytecode, discards) plus a fixed "funded, self-destructs, funded again" block: '
+         'RebuildAll(published block) on a fresh manager at the parent vs the state the node saved. distinct = distinct (operation-kind '
+         'sequence with revert levels | program kind, entry, snapshot/revert counts | set of change-log types of the block); non-trivial = at '
+         'least 2 reverts, nesting >= 2 and 4 setter kinds | an EVM-issued revert with >= 2 live snapshots | a block with >= 3 log types',
+ 'assumptions': ['absent == empty for storage values, profile keys and asset-id metadata in observations (roots and change logs are compared exactly)',
+                 'code hash {} == keccak(nil) (both mean no code); the in-memory event slice is not account state',
+                 'the self-destruct flag is not saved with the account, so it is excluded from the redo-vs-saved-state comparison',
+                 'RebuildAll skips the four *RootLog types, so the redo comparison is made through the getters without the roots'],
  'min_cases': {'quick': 700, 'thorough': 15000},
+ 'min_stats': {'quick': {'direct_reverts_checked': 2000, 'evm_reverts_checked': 150, 'redo_blocks': 80, 'final_finalise_checks': 200, 'fresh_view_checks': 600},
+               'thorough': {'direct_reverts_checked': 50000, 'evm_reverts_checked': 4000, 'redo_blocks': 2000, 'final_finalise_checks': 5000, 'fresh_view_checks': 15000}},
  'timeout_s': {'quick': 600, 'thorough': 5400}}
